@@ -118,6 +118,16 @@ func asParamMigratorsWithDefaults(newName string, defaults []string, paramMigrat
 	}
 }
 
+// migrates a function call after filling in the legacy defaults of optional trailing parameters which were omitted
+func withOptionalDefaults(numRequired int, defaults []string, migrator callMigrator) callMigrator {
+	return func(funcName string, params []string) (string, error) {
+		if len(params) >= numRequired && len(params) < numRequired+len(defaults) {
+			params = append(params[:len(params):len(params)], defaults[len(params)-numRequired:]...)
+		}
+		return migrator(funcName, params)
+	}
+}
+
 // migrates a parameter as is
 func paramAsIs() paramMigrator {
 	return func(param string) string { return param }
@@ -168,13 +178,13 @@ var callMigrators = map[string]callMigrator{
 	"epoch":             asIs(),
 	"exp":               asOperatorTemplate(`2.718281828459045 ^ %s`, precExponent+1),
 	"false":             asTemplate(`false`), // becomes just a keyword
-	"field":             asParamMigrators(`field`, paramAsIs(), paramDecremented(), paramAsIs()),
+	"field":             withOptionalDefaults(2, []string{`" "`}, asParamMigrators(`field`, paramAsIs(), paramDecremented(), paramAsIs())),
 	"first_word":        asTemplate(`word(%s, 0)`),
 	"fixed":             asParamMigratorsWithDefaults(`format_number`, []string{"", "2"}, paramAsIs(), paramAsIs(), paramAsIs()),
 	"format_date":       asRename(`format_datetime`),
 	"format_location":   asIs(),
 	"hour":              asTemplate(`format_datetime(%s, "tt")`),
-	"if":                asIs(),
+	"if":                withOptionalDefaults(1, []string{`0`, `false`}, asIs()),
 	"int":               asRename(`round_down`),
 	"left":              asTemplate(`text_slice(%[1]s, 0, %[2]s)`),
 	"len":               asRename(`text_length`),
